@@ -92,7 +92,7 @@ impl Prop for C03 {
     type Input = Input;
 
     fn budget(tier: Tier) -> u64 {
-        tier.pick(80_000, 2_000_000)
+        tier.pick(200_000, 2_000_000)
     }
 
     fn strategy(tier: Tier) -> BoxedStrategy<CFile> {
